@@ -226,11 +226,14 @@ func (r *checkRun) run() int {
 		}
 		r.reports = append(r.reports, rep)
 	}
-	sc := solveConfig{workDir: filepath.Join(verifDir, "work", id), quickT: 4, slowT: 12, workers: max(2, runtime.NumCPU()/2)}
+	sc := solveConfig{workDir: filepath.Join(verifDir, "work", id), quickT: 4, slowT: 10, workers: max(2, runtime.NumCPU()/3)}
 	if r.tier == "thorough" {
 		sc.quickT, sc.slowT, sc.allAgree = 20, 60, true
 	}
 	os.RemoveAll(sc.workDir)
+	if r.writeEvidence {
+		os.RemoveAll(filepath.Join(verifDir, "replays", id))
+	}
 	var solvable []*FuncReport
 	for _, rep := range r.reports {
 		if rep.vc != nil {
